@@ -64,6 +64,21 @@ def cases(draw, tier):
                 s["ref_to"] = names[draw(st.integers(0, i - 1))]
                 s["ref_how"] = draw(st.sampled_from(["prop", "array", "union"]))
         schemas.append(s)
+    if draw(st.integers(0, 5)) == 0:
+        # a broken component and a dependant whose name is the beginning of the broken one's (Bravo holds a BravoKid): the dependant
+        # goes away with it and must be named itself - "BravoKid" in a diagnostic does not name "Bravo"
+        long_, short = draw(st.sampled_from([("BravoKid", "Bravo"), ("DeltaStatus", "Delta"), ("Alpha_", "Alpha"), ("Echo1", "Echo"), ("MyModelItem", "MyModel")]))
+        schemas = [x for x in schemas if x["name"] not in (long_, short)]
+        for x in schemas:
+            if x.get("ref_to") in (long_, short):
+                x.pop("ref_to")
+        k0 = len(schemas)
+        schemas.append({"name": long_, "kind": "object", "marker": f"MARKzqS{k0}qz", "fault": draw(st.sampled_from(SCHEMA_FAULT)), "title": None, "inline_child": None})
+        schemas.append({"name": short, "kind": "object", "marker": f"MARKzqS{k0 + 1}qz", "fault": None, "title": None, "inline_child": None,
+                        "ref_to": long_, "ref_how": draw(st.sampled_from(["prop", "array", "union"]))})
+        if draw(st.booleans()):
+            schemas[-1], schemas[-2] = schemas[-2], schemas[-1]
+        names = [x["name"] for x in schemas]
     n_o = draw(st.integers(1, 6))
     paths = draw(st.lists(st.sampled_from(PATHS), min_size=n_o, max_size=n_o, unique=True))
     ops = []
@@ -249,7 +264,7 @@ def run(case, ctx):
                 found = [k for k, v in model_files.items() if all((repr(x) in v or f'"{x}"' in v or f"= {x}" in v) for x in vals)]
             if found:
                 continue
-            named = (s["name"] in diag) or (f"/components/schemas/{s['name']}" in diag)
+            named = sut.names_item(diag, s["name"])
             if not named:
                 ctx.violation("schema.present_or_diagnosed", site, f"{s['name']} ({s['kind']}) neither generated nor named; diagnostics: {diag[:200]!r}")
         # (a model module's attribute docstrings legitimately quote the descriptions of referenced models, so two schema
